@@ -653,6 +653,8 @@ func checkC15(c *Ctx) {
 	// (2b) R15f: the table collected from ALL files of the run (httpgen.GlobalUnwrapInfo)
 	c.checkGlobalTableReads("R15f")
 	c15ParameterSpelling(c)
+	r.Rule("R15i", "the file name of a service's OpenAPI document is a function of that service and the format alone (not of which other files or services reach the plugin in the same run)", 1)
+	c18FileName(c, "R15i")
 	r.Rule("R15h", "no generator sorts, or appends into the spare capacity of, a slice it does not own (a parameter, a slice of the protogen model, an option getter's result): the shared model would carry one file's or method's ordering into the next", 2)
 	sharedSliceMutation(c, "R15h", nil)
 
